@@ -1243,7 +1243,10 @@ class MatlabWrapper(CheckMixin, FormatMixin):
             id=func_id,
             new_line=new_line)
 
-    def wrap_collector_function_return_types(self, return_type, func_id):
+    def wrap_collector_function_return_types(self,
+                                             return_type,
+                                             func_id,
+                                             instantiated_class=None):
         """
         Wrap the return type of the collector function when a std::pair is returned.
         """
@@ -1251,7 +1254,19 @@ class MatlabWrapper(CheckMixin, FormatMixin):
         pair_value = 'first' if func_id == 0 else 'second'
         new_line = '\n' if func_id == 0 else ''
 
-        if self.is_shared_ptr(return_type) or self.is_ptr(return_type) or \
+        if instantiated_class and \
+            self.is_enum(return_type, instantiated_class):
+            if self.is_class_enum(return_type, instantiated_class):
+                class_name = ".".join(instantiated_class.namespaces()[1:] +
+                                      [instantiated_class.name])
+            else:
+                class_name = ".".join(
+                    instantiated_class.parent.full_namespaces()[1:])
+            if class_name != "":
+                class_name += '.'
+            return_type_text += 'wrap_enum(pairResult.{0},"{1}{2}");{3}'.format(
+                pair_value, class_name, return_type.typename.name, new_line)
+        elif self.is_shared_ptr(return_type) or self.is_ptr(return_type) or \
             self.can_be_pointer(return_type):
             shared_obj = 'pairResult.' + pair_value
 
@@ -1389,9 +1404,9 @@ class MatlabWrapper(CheckMixin, FormatMixin):
 
                 expanded += '  auto pairResult = {};\n'.format(obj)
                 expanded += self.wrap_collector_function_return_types(
-                    return_1, 0)
+                    return_1, 0, instantiated_class)
                 expanded += self.wrap_collector_function_return_types(
-                    return_2, 1)
+                    return_2, 1, instantiated_class)
         else:
             expanded += obj + ';'
 
